@@ -42,4 +42,9 @@ m = {
     "notes": "Every check: ./check <id>. Theorems in lean/Sop/Props/<id>.lean; models in lean/Sop/Model; known findings in known_findings.json.",
 }
 json.dump(m, open(os.path.join(ROOT, "MANIFEST.json"), "w"), indent=1)
+kf = []
+for f in sorted(glob.glob(os.path.join(ROOT, "findings", "C*.json"))):
+    kf.extend(json.load(open(f)))
+json.dump(kf, open(os.path.join(ROOT, "known_findings.json"), "w"), indent=1)
+open(os.path.join(ROOT, "lean", "Sop.lean"), "w").write("".join("import %s\n" % claimed[i]["module"] for i in ids if i in claimed))
 print("claimed", len(checks), "not claimed", len(m["not_applicable"]))
